@@ -24,6 +24,14 @@ class ModelRaise(Exception):
         self.msg = msg
 
 
+class ModelReturn(Exception):
+    """<dtml-return>: the activation ends, its result is the value."""
+
+    def __init__(self, value):
+        Exception.__init__(self, value)
+        self.value = value
+
+
 class ModelError(Exception):
     """The generator produced something the model has no rule for (harness bug)."""
 
@@ -87,9 +95,16 @@ class Tmpl:
 
 
 class Obj:
-    def __init__(self, name, attrs):
+    """An object with attributes.  truth: None | 'len0' (defines __len__, currently 0: an empty
+    folder-like container) | 'false' (__bool__ says False) -- it is an object with attributes all
+    the same.  result: None, or the spec calling the object returns (the object is callable: a
+    lookup by name calls it, an expression gets the object itself)."""
+
+    def __init__(self, name, attrs, truth=None, result=None):
         self.name = name
         self.attrs = attrs
+        self.truth = truth
+        self.result = result
 
 
 class Map:
@@ -99,9 +114,12 @@ class Map:
 
 
 class Seq:
-    def __init__(self, name, items):
+    """A sequence.  result: None, or the spec calling the sequence object returns (see Obj)."""
+
+    def __init__(self, name, items, result=None):
         self.name = name
         self.items = items
+        self.result = result
 
 
 class Helper:
@@ -116,11 +134,67 @@ class Text:
 
 
 class Probe:
-    """form: name | entity | miss | expr | call.  paren: (..) instead of [..]."""
+    """form: name | entity | miss | expr | call | xvar | xcall.  paren: (..) instead of [..].
+    xvar / xcall: <dtml-var X> / <dtml-call X> with X an Ex (name holds the Ex)."""
 
     def __init__(self, form, name, paren=False):
         self.form = form
         self.name = name
+        self.paren = paren
+
+
+EX_STYLES = ['q', 'e', 'p', 'ws', 'g', 'g0']
+
+
+class Ex:
+    """An EXPRESSION that is nothing but a reference to one name, where a tag takes a name or an
+    expression (var, call, if, elif, unless, with, in, return; the value of a let binding).  The
+    expression gets the object bound to the name as it is -- uncalled, unrendered -- and the tag
+    works on that.  style: how the expression is spelled:
+      q  "n"  (the documented shorthand of expr=)      e  expr="n"        p  "(n)"
+      ws " n " / expr=" n "                            g  "_.getitem('n')"  g0 expr="_.getitem('n', 0)"
+    (TemplateDict.getitem docstring: without a true second argument the object is returned
+    without any attempt to call it)."""
+
+    def __init__(self, name, style='q'):
+        if style not in EX_STYLES:
+            raise ModelError('unknown expression style %r' % (style,))
+        self.name = name
+        self.style = style
+
+
+class Ns:
+    """An expression that builds a namespace object with the `_` helper, the subject of a with
+    block: style 'namespace': _.namespace(k=src, ...) ("a single instance whose attributes are
+    provided as keyword arguments", DT_Util.namespace); 'under': _(k=src, ...) (the call
+    _.namespace forwards to); 'pos': _(m, k=src, ...) with a mapping m in front.  kws: [(attribute,
+    source name)]: the sources are read by the expression, so the attributes are the objects
+    themselves, uncalled."""
+
+    def __init__(self, style, kws, pos=None):
+        if style not in ('namespace', 'under', 'pos') or (style == 'pos') != (pos is not None):
+            raise ModelError('bad namespace expression %r' % ((style, pos),))
+        self.style = style
+        self.kws = list(kws)
+        self.pos = pos
+
+
+class Return:
+    """<dtml-return n> / <dtml-return "n">: the template's result is that value."""
+
+    def __init__(self, target):
+        self.target = target
+
+
+class SubCall:
+    """A probe [<dtml-var "t(o, _, k=src)">]: the template bound to t called from an expression
+    with the client object bound to `client` (None: no client), the current namespace as the
+    mapping and keyword arguments (values read by the expression: uncalled)."""
+
+    def __init__(self, tmpl, client=None, kws=(), paren=False):
+        self.tmpl = tmpl
+        self.client = client
+        self.kws = list(kws)
         self.paren = paren
 
 
@@ -259,12 +333,42 @@ def to_dtml(ast, syntax='html', sp=None):
         toggle[0] += 1
         return ('name=%s' if toggle[0] % 2 else 'name="%s"') % name
 
-    def cond(c):
-        """The condition of an if / elif tag: a name, or an expression."""
+    def extext(x):
+        """The text of an expression that is a reference to one name."""
+        name = sp(x.name)
+        if x.style in ('q', 'e'):
+            return name
+        if x.style == 'p':
+            return '(%s)' % name
+        if x.style == 'ws':
+            return ' %s ' % name
+        if x.style == 'g':
+            return "_.getitem('%s')" % name
+        return "_.getitem('%s', 0)" % name
+
+    def nstext(x):
+        args = ['%s=%s' % (sp(k), sp(src)) for k, src in x.kws]
+        if x.style == 'pos':
+            args.insert(0, sp(x.pos))
+        return '%s(%s)' % ('_.namespace' if x.style == 'namespace' else '_', ', '.join(args))
+
+    def subj(c):
+        """The name-or-expression argument of a tag."""
         if isinstance(c, Lit):
             toggle[0] += 1
             return ('"%r"' if syntax != 'named' and toggle[0] % 2 else 'expr="%r"') % (c.value,)
+        if isinstance(c, Ex):
+            if c.style in ('q', 'p', 'g'):
+                return '"%s"' % extext(c)
+            if c.style == 'ws':
+                toggle[0] += 1
+                return ('"%s"' if toggle[0] % 2 else 'expr="%s"') % extext(c)
+            return 'expr="%s"' % extext(c)
+        if isinstance(c, Ns):
+            toggle[0] += 1
+            return ('"%s"' if toggle[0] % 2 else 'expr="%s"') % nstext(c)
         return nm(c)
+    cond = subj
     if syntax == 'old':
         def opn(tag, args=''):
             return '<!--#%s%s-->' % (tag, args and ' ' + args)
@@ -283,7 +387,7 @@ def to_dtml(ast, syntax='html', sp=None):
             out.append(n.s)
         elif isinstance(n, Probe):
             o, c = '()' if n.paren else '[]'
-            name = sp(n.name)
+            name = None if isinstance(n.name, Ex) else sp(n.name)
             if syntax == 'epfs':
                 if n.form == 'name':
                     out.append('%s%%(%s)s%s' % (o, name, c))
@@ -301,20 +405,32 @@ def to_dtml(ast, syntax='html', sp=None):
                 out.append(o + opn('var', '"seen(%s)"' % name) + c)
             elif n.form == 'call':
                 out.append(opn('call', nm(n.name)))
+            elif n.form == 'xvar':
+                out.append(o + opn('var', subj(n.name)) + c)
+            elif n.form == 'xcall':
+                out.append(opn('call', subj(n.name)))
             else:
                 raise ModelError(n.form)
         elif syntax == 'epfs':
             raise ModelError('blocks are not printed in the EPFS syntax')
+        elif isinstance(n, SubCall):
+            o, c = '()' if n.paren else '[]'
+            args = [sp(n.client) if n.client else 'None', '_'] + ['%s=%s' % (sp(k), sp(src)) for k, src in n.kws]
+            out.append(o + opn('var', '"%s(%s)"' % (sp(n.tmpl), ', '.join(args))) + c)
+        elif isinstance(n, Return):
+            out.append(opn('return', subj(n.target)))
         elif isinstance(n, In):
-            args = nm(n.name) + (' mapping' if n.mapping else '')
+            args = subj(n.name) + (' mapping' if n.mapping else '')
             if n.prefix:
                 args += ' prefix=' + sp(n.prefix)
             out.append(opn('in', args) + to_dtml(n.body, syntax, sp) + cls('in'))
         elif isinstance(n, With):
             opt = {'inst': '', 'only': ' only', 'mapping': ' mapping'}[n.mode]
-            out.append(opn('with', nm(n.name) + opt) + to_dtml(n.body, syntax, sp) + cls('with'))
+            out.append(opn('with', subj(n.name) + opt) + to_dtml(n.body, syntax, sp) + cls('with'))
         elif isinstance(n, Let):
-            b = ' '.join(('%s=%s' % (sp(a), sp(s))) if f == 'name' else ('%s="%s"' % (sp(a), sp(s)))
+            b = ' '.join(('%s=%s' % (sp(a), sp(s))) if f == 'name' else
+                         ('%s="%s"' % (sp(a), extext(s) if isinstance(s, Ex) else
+                                       nstext(s) if isinstance(s, Ns) else sp(s)))
                          for a, f, s in n.bindings)
             out.append(opn('let', b) + to_dtml(n.body, syntax, sp) + cls('let'))
         elif isinstance(n, If):
@@ -322,7 +438,7 @@ def to_dtml(ast, syntax='html', sp=None):
             out.append(opn('if', cond(n.name)) + to_dtml(n.body, syntax, sp) + mid + opn('else')
                        + to_dtml(n.orelse, syntax, sp) + cls('if'))
         elif isinstance(n, Unless):
-            out.append(opn('unless', nm(n.name)) + to_dtml(n.body, syntax, sp) + cls('unless'))
+            out.append(opn('unless', subj(n.name)) + to_dtml(n.body, syntax, sp) + cls('unless'))
         elif isinstance(n, Try):
             out.append(opn('try') + to_dtml(n.body, syntax, sp) + opn('except')
                        + to_dtml(n.handler, syntax, sp) + cls('try'))
@@ -348,6 +464,10 @@ class Model:
         self.max_active = 0      # most activations of one template in progress at once
         self.reentry_raised = 0  # such activations left through an exception
         self.after_reentry = 0   # probes evaluated by an activation after an inner one ended
+        self.exprs = {}          # expression style -> evaluated count (Ex / Ns arguments of tags)
+        self.container_calls = 0  # callable objects / sequences called by a lookup by name
+        self.returns = 0         # activations ended by dtml-return
+        self.falsy_objects = 0   # namespaces taken from an object whose truth value is false
 
     # -- lookup
     def find(self, stack, name):
@@ -366,7 +486,29 @@ class Model:
     def resolve(self, stack, name):
         return self.called(stack, self.find(stack, name))
 
-    def called(self, stack, v):
+    def value_of(self, stack, target):
+        """What a tag works on: a name is looked up (callables called, templates rendered with
+        the current namespace), an expression yields the object itself."""
+        if isinstance(target, Ex):
+            self.exprs[target.style] = self.exprs.get(target.style, 0) + 1
+            return self.find(stack, target.name)
+        if isinstance(target, Ns):
+            self.exprs[target.style] = self.exprs.get(target.style, 0) + 1
+            attrs = {}
+            if target.pos is not None:
+                attrs.update(self.scope_of(self.find(stack, target.pos)))
+            for k, src in target.kws:
+                if k in attrs:
+                    raise ModelError('namespace attribute %s given twice' % k)
+                attrs[k] = self.find(stack, src)
+            return Obj('namespace', attrs)
+        return self.resolve(stack, target)
+
+    def called(self, stack, v, client=None, kw=None):
+        if isinstance(v, (Obj, Seq)) and v.result is not None:
+            self.trace.append(v.name)
+            self.container_calls += 1
+            return v.result
         if isinstance(v, Call):
             k = self.count[v.name] = self.count.get(v.name, 0) + 1
             self.trace.append(v.name)
@@ -380,8 +522,12 @@ class Model:
             inner = stack
             if v.defaults:
                 inner = inner + [dict(v.defaults)]
+            if client is not None:
+                inner = inner + [self.scope_of(client)]
             if v.tvars:
                 inner = inner + [dict(v.tvars)]
+            if kw:
+                inner = inner + [kw]
             outer = [f for f in self.frames if f[0] == v.name]
             if outer:
                 self.reentered += 1
@@ -389,6 +535,9 @@ class Model:
             self.frames.append([v.name, False])
             try:
                 return Plain(Segs(self.render(v.ast, inner)))
+            except ModelReturn as r:
+                self.returns += 1
+                return r.value
             except ModelRaise:
                 if outer:
                     self.reentry_raised += 1
@@ -407,6 +556,11 @@ class Model:
             return [str(v.value)]
         if isinstance(v, (Obj, Map)):
             return ['obj:' + v.name]
+        # an object that was handed over uncalled / unrendered is inserted as it prints
+        if isinstance(v, Call):
+            return ['UNCALLED:' + v.name]
+        if isinstance(v, Tmpl):
+            return ['UNRENDERED:' + v.name]
         raise ModelError('cannot show %r' % (v,))
 
     def seen(self, v):
@@ -425,10 +579,20 @@ class Model:
             if isinstance(v.value, Segs):
                 return True
             return bool(v.value)
+        if isinstance(v, Obj):
+            return v.truth is None
+        if isinstance(v, Call):         # the callable object itself (an expression tests it)
+            return not v.falsy
+        if isinstance(v, Seq):
+            return bool(v.items)
+        if isinstance(v, Map):
+            return bool(v.items)
         return True
 
     def scope_of(self, v):
         if isinstance(v, Obj):
+            if v.truth is not None:
+                self.falsy_objects += 1
             return dict((k, x) for k, x in v.attrs.items() if not k.startswith('_'))
         if isinstance(v, Map):
             return dict(v.items)
@@ -446,6 +610,9 @@ class Model:
                     self.after_reentry += 1
                 if n.form == 'call':
                     self.resolve(stack, n.name)
+                    continue
+                if n.form == 'xcall':
+                    self.value_of(stack, n.name)
                     continue
                 if n.form in ('name', 'entity'):
                     try:
@@ -465,14 +632,31 @@ class Model:
                             segs = ['-']
                 elif n.form == 'expr':
                     segs = self.seen(self.find(stack, n.name))
+                elif n.form == 'xvar':
+                    segs = self.show(self.value_of(stack, n.name))
                 else:
                     raise ModelError(n.form)
                 o, c = '()' if n.paren else '[]'
                 out.append(o)
                 out.extend(segs)
                 out.append(c)
+            elif isinstance(n, SubCall):
+                self.probes['subcall'] = self.probes.get('subcall', 0) + 1
+                t = self.find(stack, n.tmpl)
+                if not isinstance(t, Tmpl):
+                    raise ModelError('%s is not a template' % n.tmpl)
+                client = self.find(stack, n.client) if n.client else None
+                kw = dict((k, self.find(stack, src)) for k, src in n.kws)
+                o, c = '()' if n.paren else '[]'
+                out.append(o)
+                out.extend(self.show(self.called(stack, t, client, kw)))
+                out.append(c)
+            elif isinstance(n, Return):
+                raise ModelReturn(self.value_of(stack, n.target))
             elif isinstance(n, In):
-                seq = self.resolve(stack, n.name)
+                seq = self.value_of(stack, n.name)
+                if not isinstance(seq, Seq):
+                    raise ModelError('dtml-in over %r' % (seq,))
                 last = len(seq.items) - 1
                 for i, item in enumerate(seq.items):
                     svars = {'sequence-item': item, 'sequence-index': Plain(i),
@@ -482,7 +666,7 @@ class Model:
                             svars['%s~%s' % (n.prefix, suffix)] = svars['sequence-' + suffix]
                     out.extend(self.render(n.body, stack + [svars, self.scope_of(item)]))
             elif isinstance(n, With):
-                scope = self.scope_of(self.resolve(stack, n.name))
+                scope = self.scope_of(self.value_of(stack, n.name))
                 if n.mode == 'only':
                     self.only += 1
                     try:
@@ -495,7 +679,10 @@ class Model:
                 d = {}
                 st = stack + [d]
                 for name, form, src in n.bindings:
-                    d[name] = self.resolve(st, src) if form == 'name' else self.find(st, src)
+                    if form == 'name':
+                        d[name] = self.resolve(st, src)
+                    else:
+                        d[name] = self.value_of(st, src) if isinstance(src, (Ex, Ns)) else self.find(st, src)
                 out.extend(self.render(n.body, st))
             elif isinstance(n, If):
                 # "a variable is only evaluated once in an if tag": every tested name
@@ -507,6 +694,17 @@ class Model:
                     if isinstance(cname, Lit):
                         # an expression condition: no lookup by name, nothing cached
                         if cname.value:
+                            chosen = cbody
+                            break
+                        continue
+                    if isinstance(cname, Ex):
+                        # an expression that mentions a name: the object itself is tested --
+                        # nothing is called, nothing is bound for the sections
+                        try:
+                            v = self.value_of(st, cname)
+                        except Missing:
+                            raise ModelError('generator tested undefined %s in an expression' % cname.name)
+                        if self.truthy(v):
                             chosen = cbody
                             break
                         continue
@@ -522,13 +720,16 @@ class Model:
             elif isinstance(n, Unless):
                 cache = {}
                 st = stack + [cache]
-                try:
-                    v = self.resolve(st, n.name)
-                except Missing:
-                    t = False
+                if isinstance(n.name, Ex):
+                    t = self.truthy(self.value_of(st, n.name))
                 else:
-                    cache[n.name] = v
-                    t = self.truthy(v)
+                    try:
+                        v = self.resolve(st, n.name)
+                    except Missing:
+                        t = False
+                    else:
+                        cache[n.name] = v
+                        t = self.truthy(v)
                 if not t:
                     out.extend(self.render(n.body, st))
             elif isinstance(n, Try):
@@ -619,6 +820,52 @@ class RObj:
         return 'obj:' + self._c02name
 
 
+class RObjLen0(RObj):
+    """A folder-like container that is empty at the moment: it has a length, and it is 0."""
+
+    def __len__(self):
+        return 0
+
+
+class RObjFalse(RObj):
+    def __bool__(self):
+        return False
+
+
+def _calling(base):
+    """The class `base` made callable: a call is logged and returns the prepared result."""
+    def __call__(self):
+        self._c02rec.log('call', self._c02name)
+        return self._c02result
+    return type('Calling' + base.__name__, (base,), {'__call__': __call__})
+
+
+class RSeq(list):
+    _c02name = ''
+
+    def __str__(self):
+        return 'seq:' + self._c02name
+
+
+ROBJ_CLASSES = {None: RObj, 'len0': RObjLen0, 'false': RObjFalse}
+ROBJ_CALLING = dict((k, _calling(c)) for k, c in ROBJ_CLASSES.items())
+RSeqCalling = _calling(RSeq)
+
+
+_LABELLED = {}
+
+
+def labelled(tmpl_class):
+    """tmpl_class with a __str__ of the harness: a template object that is inserted unrendered
+    (an expression handed it over as an object) prints as UNRENDERED:<its name>."""
+    c = _LABELLED.get(tmpl_class)
+    if c is None:
+        def __str__(self):
+            return 'UNRENDERED:' + self.__dict__.get('c02label', '?')
+        c = _LABELLED[tmpl_class] = type('Labelled' + tmpl_class.__name__, (tmpl_class,), {'__str__': __str__})
+    return c
+
+
 class RMap(dict):
     _c02name = ''
 
@@ -647,7 +894,7 @@ class Realizer:
 
     def __init__(self, rec, tmpl_class, sp=None, syntax='html'):
         self.rec = rec
-        self.tmpl_class = tmpl_class
+        self.tmpl_class = labelled(tmpl_class)
         self.sp = sp or IDENTITY
         self.syntax = syntax
         self.memo = {}
@@ -682,12 +929,16 @@ class Realizer:
                                  **self.real_scope(spec.defaults))
             if spec.tvars:
                 ob.var(**self.real_scope(spec.tvars))
+            ob.__dict__['c02label'] = spec.name
             reg = 'obj:' + spec.name
         elif isinstance(spec, Obj):
-            ob = RObj(spec.name)
+            ob = (ROBJ_CLASSES if spec.result is None else ROBJ_CALLING)[spec.truth](spec.name)
             self.memo[id(spec)] = (spec, ob)
             for k, v in spec.attrs.items():
                 setattr(ob, self.sp(k), self.real(v))
+            if spec.result is not None:
+                ob._c02rec = self.rec
+                ob._c02result = self.real(spec.result)
             reg = 'obj:' + spec.name
         elif isinstance(spec, Map):
             ob = RMap()
@@ -697,7 +948,13 @@ class Realizer:
                 ob[self.sp(k)] = self.real(v)
             reg = 'obj:' + spec.name
         elif isinstance(spec, Seq):
-            ob = [self.real(i) for i in spec.items]
+            if spec.result is None:
+                ob = [self.real(i) for i in spec.items]
+            else:
+                ob = RSeqCalling(self.real(i) for i in spec.items)
+                ob._c02name = spec.name
+                ob._c02rec = self.rec
+                ob._c02result = self.real(spec.result)
             reg = 'seq:' + spec.name
         elif isinstance(spec, Helper):
             ob = self.seen
